@@ -1,13 +1,13 @@
 #!/bin/bash
 # usage: lib/seedregress.sh [name-filter]  -- applies every kept seeded change to /repo in turn, runs the quick check of
-# the property it breaks, reverts, and records whether a VIOLATION was reported (seeded/REGRESSION.txt).
+# the property it breaks (or of the check named in meta.regress_with for configuration-specific changes), reverts, and records whether a VIOLATION was reported (seeded/REGRESSION.txt).
 cd /verif || exit 2
 out=seeded/REGRESSION.txt
 : > $out.tmp
 for d in seeded/*/; do
   n=$(basename $d)
   [ -n "$1" ] && [[ "$n" != *$1* ]] && continue
-  p=$(python3 -c "import json;print(json.load(open('$d/meta.json'))['breaks_property'][:3])")
+  p=$(python3 -c "import json;m=json.load(open('$d/meta.json'));print(m.get('regress_with', m['breaks_property'][:3]))")
   res=$(./lib/seedtest.sh /verif/$d/patch.diff quick $p 2>&1)
   sigs=$(echo "$res" | grep -c "^VIOLATION")
   rc=$(echo "$res" | grep -oE "exit [0-9]" | head -1)
